@@ -1063,9 +1063,19 @@ struct TemplateOf<T>(T);
 
 impl<T: Parse> Parse for TemplateOf<T> {
     fn parse(input: syn::parse::ParseStream) -> Result<Self> {
-        Ok(Self(parse2::<T>(dollar_token_to_placeholder(
-            input.parse()?,
-        ))?))
+        let tokens: TokenStream = input.parse()?;
+        let value = parse2::<T>(dollar_token_to_placeholder(tokens.clone()))?;
+        // `$` is later replaced by a parenthesized expression (e.g. `(self.0)`):
+        // reject uses of `$` in places where only a name can stand (`$.$`, `$ { .. }`, `let $ = ..`).
+        let probe = replace_tokens(
+            tokens,
+            &|t| matches!(t, TokenTree::Punct(p) if p.as_char() == '$'),
+            &quote!((__placeholder.0)),
+        );
+        if let Err(e) = parse2::<T>(probe) {
+            bail!(e.span(), "`$` can only be used in place of an expression");
+        }
+        Ok(Self(value))
     }
 }
 
